@@ -3,13 +3,14 @@
  * Dumps what "the child is executing" as one JSON object: argv, envp, cwd, the descriptor
  * table (/proc/self/fd: number, link target, access mode, close-on-exec flag), ids.
  * Nothing about where to write or how to exit is taken from argv / environment / cwd (those
- * are the quantities under test): the dump goes to "<path of /proc/self/exe>.dump" and the
+ * are the quantities under test): the dump goes to "<path of /proc/self/exe>.<pid>.dump" and the
  * way to terminate is encoded in the file name of the executable (the check hard-links the
  * helper under a per-run name):
  *     h<N>     exit(N)
  *     k<N>     raise signal N (default action)
- * Reads stdin to EOF when the name ends in "r" (h0r) and reports the bytes read; writes
- * "OUT" to fd 1 and "ERR" to fd 2 when it ends in "w" - only used by the pipe plumbing test.
+ * followed by flags: r = read stdin to the end and report the bytes; w = write "OUT" to fd 1 and
+ * "ERR" to fd 2; c = copy stdin to stdout until end-of-file ("ERRMARK\n" on stderr first,
+ * "ERR:<bytes>\n" last), reporting byte count and an order-sensitive checksum.
  * Static, no libc start-up dependence on the environment.
  */
 #define _GNU_SOURCE
@@ -45,8 +46,8 @@ int main(int argc, char **argv, char **envp)
     if (n <= 0)
         _exit(111);
     exe[n] = 0;
-    snprintf(out, sizeof out, "%s.dump", exe);
-    snprintf(tmp, sizeof tmp, "%s.dump.tmp", exe);
+    snprintf(out, sizeof out, "%s.%d.dump", exe, (int)getpid());
+    snprintf(tmp, sizeof tmp, "%s.%d.dump.tmp", exe, (int)getpid());
     const char *base = strrchr(exe, '/');
     base = base ? base + 1 : exe;
 
@@ -77,12 +78,47 @@ int main(int argc, char **argv, char **envp)
 
     char inbuf[256];
     ssize_t got = -1;
-    size_t bl = strlen(base);
-    int want_r = bl > 0 && (base[bl - 1] == 'r' || (bl > 1 && base[bl - 2] == 'r'));
-    int want_w = bl > 0 && base[bl - 1] == 'w';
+    /* flags after the number in the file name: r = read stdin to the end, w = write OUT / ERR,
+     * c = copy stdin to stdout until end-of-file, "ERRMARK\n" on stderr first and "ERR:<bytes>\n" last */
+    const char *fl = base + 1;
+    while (*fl >= '0' && *fl <= '9')
+        fl++;
+    int want_r = strchr(fl, 'r') != NULL, want_w = strchr(fl, 'w') != NULL, want_c = strchr(fl, 'c') != NULL;
+    long long copied = -1, outw = 0;
+    unsigned ad_a = 1, ad_b = 0;
+    int out_err = 0;
     if (want_w) {
         (void)!write(1, "OUT", 3);
         (void)!write(2, "ERR", 3);
+    }
+    if (want_c) {
+        static char cbuf[8192];
+        signal(SIGPIPE, SIG_IGN);
+        (void)!write(2, "ERRMARK\n", 8);
+        copied = 0;
+        for (;;) {
+            ssize_t r = read(0, cbuf, sizeof cbuf);
+            if (r <= 0)
+                break;
+            for (ssize_t i = 0; i < r; i++) {
+                ad_a = (ad_a + (unsigned char)cbuf[i]) % 65521u;
+                ad_b = (ad_b + ad_a) % 65521u;
+            }
+            copied += r;
+            ssize_t off = 0;
+            while (off < r && !out_err) {
+                ssize_t w = write(1, cbuf + off, (size_t)(r - off));
+                if (w <= 0) {
+                    out_err = errno ? errno : -1;
+                    break;
+                }
+                off += w;
+                outw += w;
+            }
+        }
+        char mk[64];
+        int ml = snprintf(mk, sizeof mk, "ERR:%lld\n", copied);
+        (void)!write(2, mk, (size_t)ml);
     }
     if (want_r) {
         got = 0;
@@ -131,6 +167,8 @@ int main(int argc, char **argv, char **envp)
         fprintf(f, ",\"stdin_read\":");
         jstr(f, inbuf);
     }
+    if (copied >= 0)
+        fprintf(f, ",\"copied\":%lld,\"copied_out\":%lld,\"sum_a\":%u,\"sum_b\":%u,\"out_errno\":%d", copied, outw, ad_a, ad_b, out_err);
     fprintf(f, "}\n");
     fclose(f);
     rename(tmp, out);
